@@ -55,9 +55,9 @@ static void b_setmulti(unsigned n, unsigned m, int failpos)
 	cfg_t cfg; cfg_opt_t o; snap_t s; int rc;
 	char *texts[2] = { "a", "b" };
 	memset(&cfg, 0, sizeof cfg); cfg.name = "root"; cfg.errfunc = cfgv_errfunc; cfg.flags = nondet_int();
-	mk_opt(&o, CFGT_INT, n, 0);
 	/* well-formed: a scalar holds at most one value and takes at most one; not a multi section */
-	if (!((o.flags & CFGF_LIST) || (n <= 1 && m <= 1)) || (o.flags & CFGF_MULTI)) return;
+	if (!((k_flags & CFGF_LIST) || (n <= 1 && m <= 1)) || (k_flags & CFGF_MULTI)) return;
+	mk_opt(&o, CFGT_INT, n, 0);
 	snap(&o, &s);
 	g_so_calls = 0; g_so_failpos = failpos; in_failpos = failpos; g_so_diag = 0;
 	g_so_value[0] = nondet_long(); g_so_value[1] = nondet_long();
